@@ -30,7 +30,7 @@ TITLES = {}
 
 PROPS['C04'] = Prop(
     functions=['_checks:RoleCheck.__call__'],
-    bounded=[],
+    bounded=[('bounded.leaf_checks', 'c04')],
     standins={'_checks:RoleCheck.__call__': ('bounded.leaf_checks', 'role_check')},
     level='proof',
     explanation='RoleCheck.__call__ is proved, for all targets, credentials and match strings, to allow iff the '
@@ -43,7 +43,8 @@ PROPS['C04'] = Prop(
 )
 
 PROPS['C05'] = Prop(
-    functions=['_checks:GenericCheck.__call__', '_checks:GenericCheck._find_in_dict'],
+    functions=['_checks:GenericCheck.__call__', '_checks:GenericCheck._find_in_dict', '_parser:_parse_check'],
+    bounded=[('bounded.leaf_checks', 'c05')],
     standins={'_checks:GenericCheck.__call__': ('bounded.leaf_checks', 'generic_check'),
               '_checks:GenericCheck._find_in_dict': ('bounded.leaf_checks', 'generic_check')},
     level='proof',
@@ -170,8 +171,7 @@ PROPS['C07'] = Prop(
 )
 
 PROPS['C08'] = Prop(
-    functions=ENFORCE_SIDE,
-    thorough_functions=['policy:Enforcer.enforce'],
+    functions=ENFORCE_SIDE + ['policy:Enforcer.enforce'],
     bounded=[('bounded.enforce', 'c08')],
     level='other',
     technique='contract-based deductive verification of the scope gate (own VC generator + z3) + complete enumeration of the finite table through enforce()',
@@ -185,8 +185,8 @@ PROPS['C08'] = Prop(
 PROPS['C14'] = Prop(
     functions=['_checks:RoleCheck.__call__', '_checks:GenericCheck.__call__', '_checks:GenericCheck._find_in_dict',
                '_checks:RuleCheck.__call__', '_checks:NotCheck.__call__', '_checks:AndCheck.__call__',
-               '_checks:OrCheck.__call__', '_checks:_check', 'policy:Rules.__missing__'],
-    thorough_functions=['policy:Enforcer.enforce', 'policy:Enforcer.authorize'],
+               '_checks:OrCheck.__call__', '_checks:_check', 'policy:Rules.__missing__', 'policy:Enforcer.authorize'],
+    thorough_functions=['policy:Enforcer.enforce'],
     bounded=[('bounded.enforce', 'c14')],
     level='other',
     technique='contract-based deductive verification: exception freedom is an obligation on every path of every evaluation function (own VC generator + z3); enforce() itself is covered by a bounded stand-in',
@@ -199,7 +199,7 @@ PROPS['C14'] = Prop(
 )
 
 PROPS['C09'] = Prop(
-    functions=['policy:Enforcer.set_rules', 'policy:pick_default_policy_file'],
+    functions=['policy:Enforcer.set_rules', 'policy:pick_default_policy_file', 'policy:Enforcer._is_directory_updated'],
     bounded=[('bounded.loader', 'c09')],
     level='other',
     technique='bounded stand-in for the load sequence (the loader contracts over the ghost file system are not closed); set_rules proved deductively',
